@@ -22,7 +22,7 @@ CLAIMS = {
  "C08": ("proof", "5/C08", "obs[r][c] = state[r][c] if Entitled(action, result, r, c) else 0 (truthful, minimal and complete are the three directions of this one equality) is a postcondition of State.get_observation for every action kind, with the subnet-scan loop under an invariant; HostVector.observe's ten switches are proved cell-exact; auxiliary row and initial observation likewise."),
  "C09": ("proof", "5/C09", "Layout constants, name->index maps, the vectorized row of every host, the initial tensor and the observation shape are postconditions of _update_vector_idxs, _initialize, vectorize, tensorize, generate_initial_state, get_state_dims/get_observation_dims (loop invariants for all enumerate loops). Round trips through Observation.from_numpy / State.from_numpy / numpy() / numpy_flat() are proved modulo the assumed NumPy contract (flatten is row-major and fresh, reshape inverts it). NOT covered: the readable decoders (get_readable)."),
  "C10": ("proof", "5/C10", "Space bounds cover every value (min/max loop invariants + in-box lemma), observation-space shape equals the observation's and the scenario's dims (NASimEnv.__init__), every member of either action space decodes without error (python ints, NumPy integer scalars, lists, tuples), reset/step tuple shapes; NASimGymEnv.__init__ and nasim.make_benchmark/load/generate hand the mode switches through unchanged. Bounded: run-time monitor over all registered gymnasium ids (module-level registration table). NOT covered: integer ndarrays as parameter vectors beyond the run-time integer tag of action targets, Gymnasium's own contains()."),
- "C11": ("other", "5/C11", "Proved unbounded: parameterised decode (incl. wrap-around, undefined pairs -> zero-cost no-op), nvec, advertised size, flat index->action, action mask (loop invariant), exploit_map / privesc_map hold exactly the first definition of every (service|process, os) pair for tables of any size (nested-dict loop invariant). BOUNDED only (concrete-structured scenarios, real loops executed symbolically): load_action_list enumeration (the flat index is a product of two symbolic sizes: non-linear)."),
+ "C11": ("proof", "5/C11", "Proved unbounded: load_action_list returns, for a scenario with any number of hosts / exploits / escalations, exactly the documented enumeration - block h of the list holds the four scans, every exploit and every escalation of host h in definition order with the scenario's cost, probability, service / process, OS and access (record-list loop invariants for the three loops; the flat position host*K+j is kept linear by a ghost block-start function whose two properties - blocks do not overlap, block start = host*K - are proved by induction as separate closed lemma obligations), length N*K = advertised size; parameterised decode (incl. wrap-around, undefined pairs -> zero-cost no-op), nvec, flat index->action, action mask (loop invariant), exploit_map / privesc_map hold exactly the first definition of every (service|process, os) pair for tables of any size (nested-dict loop invariant). The same contracts are re-checked on bounded concrete-structured scenarios (real loops unrolled) for replayable counterexamples."),
  "C12": ("proof", "5/C12", "Non-interference: the dynamics outputs of generative_step/step are proved equal to themselves with the three mode flags renamed (solver-discharged reads-frame), info is the action result, observation construction is proved read-only, and parameterised decoding yields the scenario's definitions (same records as the flat list)."),
  "C14": ("other", "5/C14", "Dynamics: the helper contracts (spec.* postconditions, discharged unbounded) fix every output of perform_action/reset as a function of scenario, state, action and the one draw, so equal seeds give equal trajectories given NumPy's seeded stream (assumed); a generic frame obligation on every function under contract forbids drawing from / seeding the global RNG outside the declared stochastic functions. Generation: BOUNDED - same seed twice in-process, an order-permuting set shim (two iteration orders) over the parameter grid, and a PYTHONHASHSEED sweep in sub-processes over generated benchmarks; fingerprints of hosts, firewall, exploits, escalations, sensitive hosts must agree."),
  "C15": ("other", "5/C15", "Proved unbounded (all num_hosts, all subnet counts): _generate_subnets (layout, sizes sum to num_hosts+1), _generate_topology (loop invariant: symmetric, self-connected, only DMZ public, user tree), _generate_address_space_bounds, _generate_sensitive_hosts (exactly (2,0) and one user host, requested values), _get_action_probs (length, ranges, requested values). BOUNDED stand-in for the stochastic functions: the full well-formedness postcondition is evaluated as a run-time contract on every scenario the real generator returns over a parameter grid x seeds; plus unit-level run-time contracts on the two name-collision retry loops (_generate_exploits, _generate_privescs) over many seeds; three recorded known findings with witnesses (alpha_V = 1, exploit names exhausted, escalation names exhausted)."),
